@@ -192,4 +192,78 @@ PROPS["C02"] = {
     },
 }
 
+PROPS["C14"] = {
+    "lean": ["TinkVerif.Props.C14"],
+    "theorems": T("TinkVerif.Keyset", "validate_iff_WF validate_rejects validKey_iff handleOf_wf handle_from_reader_then_any_history"),
+    "harness": [{"name": "c14"}],
+    "rule": "structure-aware mutation of valid keysets of every key type (empty, missing/duplicate/disabled/destroyed primary, duplicate "
+            "ids, unknown status/prefix/material enum values, nil KeyData, wrong material type, truncated/garbage values, versions, "
+            "out-of-range sizes, off-curve points, mismatched halves, below-minimum-strength keys) plus random bytes and random JSON, "
+            "through keyset.Validate, insecurecleartextkeyset.Read, NewHandleWithNoSecrets, the binary and JSON readers; Go accept/reject "
+            "vs the Lean model (per-key parser verdict passed as an oracle bit); every accepted handle is used with every factory under "
+            "recover and checked for self-consistency; non-trivial = keysets with ≥1 key, distinct by line hash",
+    "trusted_base": [KERNEL, TIE, "per-type key parsers are an oracle bit of the model (parseOk); the harness obtains it from "
+                     "protoserialization.ParseKey"],
+    "assumptions": ["'never a panic' on the real code is explored (recover around every call), not proved; the theorem covers the structural gate"],
+    "manifest": {
+        "text": "Theorems for every keyset message (any keys, any enum numbers incl. unknown ones): Validate accepts iff the keyset is "
+                "non-empty, all keys have key data and known prefix/status, ids are pairwise distinct and the primary id names an ENABLED "
+                "key; each rejected shape of the property as a corollary; handle construction yields an error or a handle with ≥1 key, "
+                "distinct ids, exactly one ENABLED primary and known statuses (the WFHandle of C11, so any later manager history keeps it "
+                "well-formed). Tie: accept/reject and resulting entries of the real readers vs the model on structurally mutated keysets, "
+                "random bytes and JSON; accepted handles are used with every factory under recover.",
+        "design_ref": "DESIGN.md §5.14",
+        "note": "Trusted: Lean kernel; per-type parsers as oracle; no-panic explored not proved.",
+        "technique": "Lean 4 proof (validate ↔ WF, handle well-formedness) + Go/Lean decision correspondence on mutated keysets",
+    },
+}
+PROPS["C13"] = {
+    "lean": ["TinkVerif.Props.C14"],
+    "theorems": T("TinkVerif.Keyset", "noSecrets_sound noSecrets_complete noSecrets_any_position"),
+    "harness": [{"name": "c13"}],
+    "rule": "keysets of every key type with the secret key at each position, mixed public/secret, unknown material enum values and type "
+            "URLs; NewHandleWithNoSecrets / ReadWithNoSecrets / WriteWithNoSecrets decisions vs the model; every String(), KeysetInfo() "
+            "and written encrypted keyset is scanned for ≥8-byte substrings of any secret key material; encrypted keysets re-read with "
+            "wrong key / wrong associated data / truncated ciphertext; non-trivial = keysets with ≥1 key, distinct by line hash",
+    "trusted_base": [KERNEL, TIE],
+    "assumptions": ["confidentiality of the AEAD ciphertext of an encrypted keyset is cryptographic",
+                    "the substring scan is a search aid, not the proof; the proof is the gate theorem over all positions"],
+    "manifest": {
+        "text": "Theorems for every keyset and every position of the offending key: the NoSecrets gates succeed only if no key carries "
+                "UNKNOWN/SYMMETRIC/ASYMMETRIC_PRIVATE material, and for public/remote-only keysets they coincide with ordinary handle "
+                "construction. Tie: gate decisions of the real API vs the model; outputs of String/KeysetInfo/encrypted writers scanned for "
+                "key bytes; encrypted keysets rejected under wrong key or associated data.",
+        "design_ref": "DESIGN.md §5.13",
+        "note": "Trusted: Lean kernel; AEAD confidentiality cryptographic; material types with undefined enum numbers are treated as the code treats them (not secret) and reported in DESIGN.md.",
+        "technique": "Lean 4 proof (gate soundness over all positions) + Go/Lean decision correspondence + leak scan",
+    },
+}
+
+PROPS["C05"] = {
+    "lean": ["TinkVerif.Props.C05"],
+    "theorems": T("TinkVerif.Wrap", "accept_iff accept_none_of_no_enabled accept_logs_worker macAccept_iff tryAll_iff producer_is_primary "
+                  "prfIds_spec wf_after_any_history"),
+    "harness": [{"name": "c05"}],
+    "rule": "keysets of 1..6 keys per family (AEAD, DAEAD, MAC, signatures, hybrid, JWT, streaming AEAD, PRF) with mixed key types, "
+            "TINK/CRUNCHY/LEGACY/RAW, ENABLED/DISABLED/DESTROYED, any primary, ids incl. 0 and 2^32-1, CRUNCHY/LEGACY keys sharing an id, "
+            "the same key material under two ids, keysets built through manager histories; for each keyset a single-key primitive per key "
+            "(incl. disabled, destroyed, removed and foreign keys) produces an output and the acceptance matrix is measured; the Lean "
+            "model receives the keyset and the matrix row and predicts accept/reject and the logged key id; the wrapped primitive's "
+            "decision, the producing key's prefix and the fakemonitoring log are compared; non-trivial = probes on keysets with ≥2 keys",
+    "trusted_base": [KERNEL, TIE, "the single-key acceptance relation is measured on the real single-key primitives and passed to the "
+                     "model (this check is independent of the cryptography, which C01–C04/C06/C09 cover)"],
+    "assumptions": ["a defect that lives only inside a single-key primitive is invisible to this check by construction"],
+    "manifest": {
+        "text": "Theorems for every keyset and every single-key acceptance relation: an input is accepted iff some ENABLED key whose "
+                "5-byte prefix it carries (or which has no prefix) accepts it (MAC: and the tag is longer than 5 bytes; JWT/streaming: any "
+                "ENABLED key); nothing valid only under disabled/destroyed/foreign keys is accepted; the logged key id names an accepting "
+                "ENABLED candidate; the producer is the unique ENABLED primary; PRF-set ids = enabled ids; composed with C11 so that it holds "
+                "after any manager history. Tie: decisions, producing prefix and monitoring logs of the real factories vs the model on "
+                "generated keysets with a measured acceptance matrix.",
+        "design_ref": "DESIGN.md §5.5",
+        "note": "Trusted: Lean kernel; acceptance matrix measured on real single-key primitives.",
+        "technique": "Lean 4 proof (selection rule ↔ declarative statement) + Go/Lean decision-and-log correspondence",
+    },
+}
+
 NOT_BUILT = {}
